@@ -147,6 +147,11 @@ def evalLineWith (parts : Bool) (s : Sess) (input alnum ws : String) : Sess × S
   let ts := Lex.lex cc cs
   let isTz := fun n => n != "GB" && s.tz.contains n
   let (r, ctx') := Eval.step s.ctx isTz ts
+  -- the per-query hypotheses of `query_never_panics`, evaluated on what was parsed
+  let q := Parse.parseQuery isTz ts
+  let hypOk := (match Rink.Spec.C04.conversionTarget q with | some b => Rink.Spec.C04.noEmptyMulb b | none => true) &&
+    (match q with | .expr (.unit name) => !(Eval.canShowDefinition s.ctx name) || Rink.Spec.C04.defShowOKb s.ctx name | _ => true)
+  if !hypOk then ({ s with ctx := ctx' }, "model-hypothesis-violated") else
   if parts then
     match r with
     | .ok rep => ({ s with ctx := ctx' }, match partsOfReply s.ctx.reg rep with | some t => t | none => "unsupported parts")
